@@ -74,10 +74,26 @@ func (args *AtDateAndTimeArgs) AtTime(now gotime.Time, config app.Config) (klog.
 	if today.IsEqualTo(date) {
 		return time, nil
 	} else if today.PlusDays(-1).IsEqualTo(date) {
-		shiftedTime, _ := time.Plus(klog.NewDuration(24, 0))
+		shiftedTime, sErr := time.Plus(klog.NewDuration(24, 0))
+		if sErr != nil {
+			return nil, app.NewErrorWithCode(
+				app.LOGICAL_ERROR,
+				"Cannot determine time",
+				"The current time cannot be shifted to the requested date; please specify a time value explicitly",
+				sErr,
+			)
+		}
 		return shiftedTime, nil
 	} else if today.PlusDays(1).IsEqualTo(date) {
-		shiftedTime, _ := time.Plus(klog.NewDuration(-24, 0))
+		shiftedTime, sErr := time.Plus(klog.NewDuration(-24, 0))
+		if sErr != nil {
+			return nil, app.NewErrorWithCode(
+				app.LOGICAL_ERROR,
+				"Cannot determine time",
+				"The current time cannot be shifted to the requested date; please specify a time value explicitly",
+				sErr,
+			)
+		}
 		return shiftedTime, nil
 	}
 	return nil, app.NewErrorWithCode(
